@@ -705,7 +705,10 @@ class Terms:
                                 ix = ("const", "int", -1)
                 t = ("index", t, ix)
             elif "cidx" in e:
-                t = ("index", t, ("const", "int", (-e["cidx"]) if e.get("from_end") else e["cidx"]))
+                if t[0] == "array" and not e.get("from_end") and 0 <= e["cidx"] < len(t[1]):
+                    t = t[1][e["cidx"]]  # an element of a literal array
+                else:
+                    t = ("index", t, ("const", "int", (-e["cidx"]) if e.get("from_end") else e["cidx"]))
             elif "sub" in e:
                 t = ("subslice", t, tuple(e["sub"]), e.get("from_end"))
             else:
@@ -914,6 +917,9 @@ class Terms:
             return ("trybranch", args[0])
         if nm in ("std::ops::Index::index", "std::ops::IndexMut::index_mut") and len(args) == 2 and args[1][0] == "agg" and args[1][1].endswith("RangeFull"):
             return args[0]  # xs[..] is xs
+        if nm.endswith("array::map") and len(args) == 2 and args[0][0] == "array" and args[1][0] == "closure":
+            # [a, b].map(f) is [f(a), f(b)]
+            return ("array", tuple(("call", "std::ops::Fn::call", (args[1], ("tuple", (e_,)))) for e_ in args[0][1]))
         if nm == "std::option::Option::take_if" and len(args) == 2:
             # the value handed back is `opt.filter(pred)` of the value before the call
             return ("call", "std::option::Option::filter", args, ("meta", "std::option::Option::filter", None))
